@@ -17,7 +17,7 @@ class StatementSplitter:
     def _reset(self):
         """Set the filter attributes to its default values"""
         self._in_declare = False
-        self._in_case = False
+        self._case_depth = 0
         self._is_create = False
         self._begin_depth = 0
 
@@ -61,16 +61,16 @@ class StatementSplitter:
 
         # BEGIN and CASE/WHEN both end with END
         if unified == 'END':
-            if not self._in_case:
+            if self._case_depth == 0:
                 self._begin_depth = max(0, self._begin_depth - 1)
             else:
-                self._in_case = False
+                self._case_depth -= 1
             return -1
 
         if (unified in ('IF', 'FOR', 'WHILE', 'CASE')
                 and self._is_create and self._begin_depth > 0):
             if unified == 'CASE':
-                self._in_case = True
+                self._case_depth += 1
             return 1
 
         if unified in ('END IF', 'END FOR', 'END WHILE'):
